@@ -116,7 +116,11 @@ def render_level(fields):
         f["default"] = dval
         meta = f", metadata=field_options(alias={f['alias']!r})" if f.get("alias") else ""
         name = f["name"]
-        if role == "req":
+        if f.get("bare"):
+            # re-annotated without a value: dataclasses make a fresh field whose default is the class attribute found
+            # along the MRO (the inherited default), without the inherited metadata
+            lines.append(f"    {name}: {ann}")
+        elif role == "req":
             lines.append(f"    {name}: {ann}" + (f" = field({meta[2:]})" if meta else ""))
         elif role == "def":
             lines.append(f"    {name}: {ann} = " + (f"field(default={dsrc}{meta})" if meta else dsrc))
@@ -172,12 +176,17 @@ def run_case(seed, tier, rec, st):
         # init=False may become an ordinary defaulted field)
         overrides = []
         if nbodies > 1:
-            roles = ("def", "noinit", "req") if diamond else ("def",)
+            roles = ("def", "noinit", "req") if diamond else ("def", "def", "req")
             cands = [f for f in bodies[0] if f["role"] in roles]
             if cands and rng.random() < (0.8 if diamond else 0.5):
                 base_f = rng.choice(cands)
                 where = [lv for lv in (1, 2, 3) if rng.random() < (0.6 if lv < 3 else 0.2)] if diamond else [rng.randint(1, levels - 1)]
                 for lv in where:
+                    if not diamond and base_f["role"] in ("def", "req") and rng.random() < 0.35:
+                        o = dict(base_f, override_level=lv, bare=True)
+                        o.pop("alias", None)
+                        overrides.append(o)
+                        continue
                     counter[0] += 1
                     overrides.append(dict(base_f, n=counter[0], override_level=lv, role="def"))
         cfg = []
@@ -322,7 +331,7 @@ def run_case(seed, tier, rec, st):
                     exp[name] = getattr(cls, name) if diamond else spec[name]["default"]
             det = lambda **kw: dict({"source": "\n".join(src), "input": common.short(d, 400), "present": [n for p, n in zip(mask, init_fields) if p]}, **kw)
             facts = {"allow_not_by_alias": allow, "levels": levels, "override": bool(overrides), "diamond": diamond, "via_holder_after_ancestor": via_holder,
-                     "undecorated_base": zbase is not None}
+                     "undecorated_base": zbase is not None, "bare_reannotation": any(o.get("bare") for o in overrides)}
             try:
                 r = dec(dict(d))
                 r2 = dec(dict(d))
